@@ -209,4 +209,50 @@ theorem half_floor_scaled (x P : Int) (hP : 0 < P) : 0 ≤ x * P - x / 2 * (2 * 
 
 theorem quarter_floor (x : Int) : 0 ≤ x - x / 4 * 4 ∧ x - x / 4 * 4 < 4 := by omega
 
+/-! ### The repaired left shift (F14)
+
+Since the `fix:` commit for F14 the macro is `(x) = (by) > 0 ? (int64_t)((uint64_t)(x) << (by)) : (x) >> -(by)`: the left
+shift is done on the unsigned representation (defined for every value) and converted back (modulo `2⁶⁴`: gcc, clang
+and MSVC).  The model's `lshift` multiplies unbounded integers; the two agree — for negative values too — whenever the
+product fits `int64_t`.  (Before the repair `x << by` with `x < 0` was undefined behaviour.) -/
+
+/-- `(uint64_t)x`: the two's-complement representation of an `int64_t` -/
+def toU64 (x : Int) : Int := x % 2 ^ 64
+/-- `(int64_t)u` for a `uint64_t` (modulo `2⁶⁴`) -/
+def toI64 (u : Int) : Int := if u % 2 ^ 64 < 2 ^ 63 then u % 2 ^ 64 else u % 2 ^ 64 - 2 ^ 64
+/-- `(int64_t)((uint64_t)x << k)`: the `uint64_t` shift drops the bits above `2⁶⁴` -/
+def shlC (x : Int) (k : Nat) : Int := toI64 (toU64 x * 2 ^ k % 2 ^ 64)
+/-- the repaired macro `lshift(x, by)` of vr32.c (`>>` of a negative `int64_t` is the arithmetic shift: floor) -/
+def lshiftC (x by_ : Int) : Int := if by_ > 0 then shlC x by_.toNat else x / 2 ^ (-by_).toNat
+
+theorem toI64_of_range (y : Int) (hlo : -2 ^ 63 ≤ y) (hhi : y < 2 ^ 63) : toI64 (y % 2 ^ 64) = y := by
+  unfold toI64
+  rw [Int.emod_emod_of_dvd y (Int.dvd_refl _)]
+  split <;> omega
+
+/-- the shift on the unsigned representation is multiplication by `2^k`, whatever the sign of `x`, as long as the
+    product is an `int64_t` -/
+theorem shlC_eq_mul (x : Int) (k : Nat) (hlo : -2 ^ 63 ≤ x * 2 ^ k) (hhi : x * 2 ^ k < 2 ^ 63) : shlC x k = x * 2 ^ k := by
+  unfold shlC toU64
+  rw [Int.mul_emod, Int.emod_emod, ← Int.mul_emod]
+  exact toI64_of_range _ hlo hhi
+
+/-- **F14, repaired.**  The macro of the repaired code computes what the model's `lshift` computes, for every `x`
+    (negative ones in particular: `step_step` of a downward slew) and every shift amount, provided the result of a
+    left shift fits 64 bits (it does: `at`, `step`, `step_step` are below `2⁴⁷` in magnitude and the shift is 1 or 2). -/
+theorem lshiftC_eq_lshift (x by_ : Int) (h : by_ > 0 → -2 ^ 63 ≤ x * 2 ^ by_.toNat ∧ x * 2 ^ by_.toNat < 2 ^ 63) :
+    lshiftC x by_ = lshift x by_ := by
+  unfold lshiftC lshift
+  split
+  · rename_i hb
+    exact shlC_eq_mul x _ (h hb).1 (h hb).2
+  · rfl
+
+/-- the values of the UBSan reports on the pinned tree (`left shift of negative value -1073742`), and a large one -/
+example : lshiftC (-1073742) 1 = -2147484 ∧ lshiftC (-2720146) 2 = -10880584 ∧ lshiftC (-1073742) (-1) = -536871 ∧
+    lshiftC (-(2 ^ 46)) 2 = -(2 ^ 48) := by decide
+/-- … which is what the machine types do: `Int64 → UInt64`, `<<<`, back -/
+example : ((Int64.ofInt (-1073742)).toUInt64 <<< 1).toInt64.toInt = lshiftC (-1073742) 1 ∧
+    ((Int64.ofInt (-2720146)).toUInt64 <<< 2).toInt64.toInt = lshiftC (-2720146) 2 := by decide
+
 end Soxr.Vr
